@@ -120,3 +120,57 @@ Proof.
   apply Qred_complete. rewrite (qsum_perm _ _ (Permutation_map (fun x => Qabs.Qabs (x - QL.qmean l')) Pm)).
   unfold QL.qlen. rewrite (Permutation_length Pm). reflexivity.
 Qed.
+
+(** DeltaChange: its loop runs over obs and the output follows obs; it is the RunningWindowDebiaser loop with the
+    roles of obs and cm_future exchanged, so the same theorem applies *)
+Lemma driver_dc_as_rw {T V} L S dobs dhist dfut (obs hist fut : list T) (W : list T -> list T -> list T -> list V) :
+  driver_dc V L S dobs dhist dfut obs hist fut W = driver_rw V L S dfut dhist dobs fut hist obs (fun o h f => W f h o).
+Proof. reflexivity. Qed.
+
+Section DC.
+Variables (L S : Z).
+Hypothesis HS : (0 < S)%Z.
+Hypothesis HSL : (S <= L)%Z.
+Hypothesis Hodd : (S mod 2 = 1)%Z.
+
+Definition order_equivariant_dc (W : list Q -> list Q -> list Q -> list Q) : Prop :=
+  forall dobs dhist dfut (obs hist fut : list Q) dobs' dhist' dfut' (obs' hist' fut' : list Q),
+  (forall d, In d dobs -> (1 <= d <= 366)%Z) ->
+  List.length obs = List.length dobs -> List.length obs' = List.length dobs' -> List.length hist = List.length dhist -> List.length hist' = List.length dhist' ->
+  List.length fut = List.length dfut -> List.length fut' = List.length dfut' ->
+  Permutation (combine dobs obs) (combine dobs' obs') -> Permutation (combine dhist hist) (combine dhist' hist') ->
+  Permutation (combine dfut fut) (combine dfut' fut') ->
+  exists out out', driver_dc Q L S dobs dhist dfut obs hist fut W = Some out /\
+                   driver_dc Q L S dobs' dhist' dfut' obs' hist' fut' W = Some out' /\
+    forall k k', (0 <= k < Z.of_nat (List.length dobs))%Z -> (0 <= k' < Z.of_nat (List.length dobs'))%Z ->
+      nth (Z.to_nat k) dobs 0%Z = nth (Z.to_nat k') dobs' 0%Z ->
+      nth_error obs (Z.to_nat k) = nth_error obs' (Z.to_nat k') ->
+      nth (Z.to_nat k) out None = nth (Z.to_nat k') out' None.
+
+Lemma of_pointwise_dc (W : list Q -> list Q -> list Q -> list Q) (g : list Q -> list Q -> list Q -> Q -> Q) :
+  (forall o h f, W o h f = map (g o h f) o) ->
+  (forall o o' h h' f f' x, Permutation o o' -> Permutation h h' -> Permutation f f' -> g o h f x = g o' h' f' x) ->
+  order_equivariant_dc W.
+Proof.
+  intros HW Hg dobs dhist dfut obs hist fut dobs' dhist' dfut' obs' hist' fut' A1 A2 A3 A4 A5 A6 A7 A8 A9 A10.
+  rewrite !driver_dc_as_rw.
+  set (g' := fun a b c x => g c b a x).
+  assert (HW' : forall o h f, (fun o h f => W f h o) o h f = Wg Q Q g' o h f) by (intros o h f; unfold Wg, g'; apply HW).
+  rewrite (driver_rw_ext L S dfut dhist dobs fut hist obs _ (Wg Q Q g') HW').
+  rewrite (driver_rw_ext L S dfut' dhist' dobs' fut' hist' obs' _ (Wg Q Q g') HW').
+  assert (Hg' : forall o o' h h' f f' x, Permutation o o' -> Permutation h h' -> Permutation f f' -> g' o h f x = g' o' h' f' x)
+    by (intros; unfold g'; apply Hg; assumption).
+  exact (order_equivariance Q Q g' Hg' L S HS HSL Hodd dfut dhist dobs fut hist obs dfut' dhist' dobs' fut' hist' obs' A1 A6 A7 A4 A5 A2 A3 A10 A9 A8).
+Qed.
+
+Theorem dc_add_order_equivariant : order_equivariant_dc (fun o h f => unwrap (dc_apply_on_window "additive" o h f)).
+Proof.
+  apply (of_pointwise_dc _ (fun o h f x => x + (QL.qmean f - QL.qmean h))); [reflexivity|].
+  intros o o' h h' f f' x _ Ph Pf. rewrite (qmean_perm _ _ Ph), (qmean_perm _ _ Pf). reflexivity.
+Qed.
+Theorem dc_mul_order_equivariant : order_equivariant_dc (fun o h f => unwrap (dc_apply_on_window "multiplicative" o h f)).
+Proof.
+  apply (of_pointwise_dc _ (fun o h f x => x * (QL.qmean f / QL.qmean h))); [reflexivity|].
+  intros o o' h h' f f' x _ Ph Pf. rewrite (qmean_perm _ _ Ph), (qmean_perm _ _ Pf). reflexivity.
+Qed.
+End DC.
